@@ -20,13 +20,13 @@ CLAIMED["C15"] = ("Deductive proof of a two-state generation-stability invariant
          "Trusted: gvc, SMT solvers. Assumed: single goroutine. Four genuine defects found by these obligations were repaired by fix: commits (known_findings.txt).",
          "4.11", CLAIMED["C06"][3])
 
-CLAIMED["C07"] = ("Deductive proof, per call and for every source sequence, predicate/equality outcome and parameter value, of the functional contract of the iterator and stream constructors, combinators and reducers against a ghost source sequence (seq, n, pos) with exact pull accounting (laziness) and sticky end; sources of the library (Slice, Counter, Repeat, Empty) are proved to implement the source protocol that is assumed of caller-supplied iterators; loops carry inductive invariants (Filter, Compact, Chunk, Reduce/Collect, Last's ring buffer).",
-         "Trusted: gvc, SMT solvers. Assumed: the source protocol for caller-supplied iterators/streams (a fixed finite sequence, sticky end, zero value with end/error); callbacks are pure. Functions not under contract are listed in the evidence under not_covered_clauses; iterator.Equal and iterator.Runs are exercised only by a bounded stand-in (exhaustive over small inputs on the real code, labelled bounded, not counted as proved).",
+CLAIMED["C07"] = ("Deductive proof, per call and for every source sequence, predicate/equality outcome and parameter value, of the functional contract of the iterator and stream constructors, combinators and reducers against a ghost source sequence (seq, n, pos) with exact pull accounting (laziness) and sticky end; sources of the library (Slice, Counter, Repeat, Empty) are proved to implement the source protocol that is assumed of caller-supplied iterators; loops carry inductive invariants (Filter, Compact, Chunk, Reduce/Collect, Last's ring buffer, the drain loop of Runs); iterator.Runs and stream.Runs: the items the outer Next skips belong to the previous run, runs are maximal, an inner iterator that reported its end stays ended; iterator.Equal: true iff all remaining sequences agree (a false answer comes with a witness position), for pairwise distinct iterator objects; the xslices Compact family against assumed contracts of package slices.",
+         "Trusted: gvc, SMT solvers. Assumed: the source protocol for caller-supplied iterators/streams (a fixed finite sequence, sticky end, zero value with end/error); callbacks are pure. Functions not under contract are listed in the evidence under not_covered_clauses; A failed obligation of a free function is replayed on the real code (generated test evaluating the contract on candidate inputs, seeded with the solver's model); where that finds an input the VIOLATION line carries it, otherwise it ends in no-failing-input-found.",
          "4.7", CLAIMED["C06"][3])
 CLAIMED["C08"] = ("Deductive proof for the in-goroutine stream combinators and reducers: on every path on which the source or a callback fails, the error returned is that very error (ghost lasterr / the callback's result), the value result is the zero value, and the wrapper's abstraction (source position minus buffered items, buffered items themselves) is unchanged for source faults, so a retry continues where it left off; the source protocol allows a fault at every call (arbitrary error, position unchanged), which covers every fault position, kind and sequence.",
          "Trusted: gvc, SMT solvers. Assumed: the faulting-source protocol; callbacks are pure functions of their arguments. Not covered: the goroutine-backed Batch, Merge, Pipe and parallel.MapStream (fault timing relative to the consumer is a schedule).",
          "4.8", CLAIMED["C06"][3])
-CLAIMED["C09"] = ("Deductive proof with a typestate ghost (closes) on every stream: Next and Close require closes == 0, every reducer closes the stream it consumes exactly once on every exit path (normal, End, source error, callback error; defer semantics), and every wrapper's Close forwards exactly once to each stream it owns.",
+CLAIMED["C09"] = ("Deductive proof with a typestate ghost (closes) on every stream: Next and Close require closes == 0, every reducer closes the stream it consumes exactly once on every exit path (normal, End, source error, callback error; defer semantics), and every wrapper's Close forwards exactly once to each stream it owns; no wrapper's Next closes or otherwise touches the closes count of its source (frame condition of every Next, including Runs' outer and inner streams), and every constructor stores exactly the stream it was given (ownership hand-over).",
          "Trusted: gvc, SMT solvers. Assumed: the consumer calls Close on a wrapper at most once and not concurrently with Next (the documented contract). Not covered: Merge, Batch, parallel.MapStream (owners are goroutines). A genuine defect (stream.One never closed its stream) was repaired by a fix: commit.",
          "4.9", CLAIMED["C06"][3])
 
@@ -36,8 +36,8 @@ CLAIMED["C12"] = ("Partial deductive proof: chans.Merge for arities 1-3 (arity 1
 CLAIMED["C18"] = ("Partial deductive proof: every typed xsync.Map wrapper equals the assumed sync.Map contract on every key state, verified for value types that are not interfaces and for ones that are (a stored nil interface, an absent key); Future: Fill once (panics, value untouched, on the second), Wait returns the filled value, and WaitContext is verified against an interfering environment (while it is blocked another goroutine may Fill: channel state, value and ghost value are havocked under the rely condition 'closed implies x is the filled value') - it returns the filled value exactly through the future's arm and ctx.Err() only through the Done arm; Watchable: Set publishes a fresh cell and closes exactly the replaced cell's channel, and Value is verified against an environment that may Set the watchable any number of times before each of its three atomic steps (current cell and the ghost set of published cells havocked under 'a cell never becomes nil again, published cells stay published'): the pair it returns always belongs to one published cell, and when the environment did nothing it is the current cell with an open channel (zero value before the first Set).",
          "Trusted: gvc, the sequential channel and atomic.Pointer models, assumed contracts of sync.Map/atomic.Pointer/context, and the rely conditions above (reported as havoc/assume in the evidence). Not covered: closing of a returned cell's channel by a concurrent Set (closedness is not havocked), Fill racing Fill, concurrent first calls of a Lazy; Lazy is sync.OnceValue (trusted). Two genuine defects repaired by fix: commits.",
          "4.12", CLAIMED["C06"][3])
-CLAIMED["C19"] = ("Deductive proof of functional contracts of the pure helpers with loop invariants, pure callbacks as uninterpreted functions, ghost permutations and maps as (domain, value) functions: xslices All/Any/Chunk/Clear/Clone/Compact(Func)/CompactInPlace(Func)/Count(Func)/Equal(Func)/Fill/Filter(InPlace)/Group/Grow/Index(Func)/Insert/Join/LastIndex(Func)/Map/Partition/Reduce/Remove/RemoveUnordered/Repeat/Reverse/Runs/Shrink/Unique(InPlace), xsort order algebra and Search, xmath Abs (per integer width, exact wrap)/Min/Max/Clamp, xmaps ToIndex/FromKeysAndValues/Set/SetFromSlice/Difference/Union/Intersection/Intersects/Reverse/ReverseSingle, xrand rShuffle (permutation) and the samplers rSample/rSampleSlice/rSampleIterator/rSampleStream (no panic, documented result length, on a trusted contract of sampler.Next).",
-         "Trusted: gvc, SMT solvers, assumed contracts of package slices/sort. Assumed: orders are strict weak orders, callbacks pure, NaN not modelled. xsort.Slice carries a TRUSTED contract (a permutation of its argument, sorted) used by xmaps.Intersection/Intersects; xerrors.WithStack, xsort.MergeSlices and the sort wrappers Slice/SliceStable/SliceIsSorted are exercised only by bounded stand-ins (in-package tests, exhaustive over small inputs, injected with go test -overlay; labelled bounded, never counted as proved; the WithStack one found and now guards a repaired idempotence defect). Not under contract (listed in evidence): xsort Merge/MergeSlices; uniformity of sampling is probabilistic and not decidable here.",
+CLAIMED["C19"] = ("Deductive proof of functional contracts of the pure helpers with loop invariants, pure callbacks as uninterpreted functions, ghost permutations and maps as (domain, value) functions: xslices All/Any/Chunk/Clear/Clone/Compact(Func)/CompactInPlace(Func)/Count(Func)/Equal(Func)/Fill/Filter(InPlace)/Group/Grow/Index(Func)/Insert/Join/LastIndex(Func)/Map/Partition/Reduce/Remove/RemoveUnordered/Repeat/Reverse/Runs/Shrink/Unique(InPlace), xsort order algebra, Search, Merge/mergeIterator.Next (heap representation: one entry per live input carrying the item last pulled from it, sources pairwise distinct and in range, Next returns the heap's least entry and ends exactly when the heap is empty - not: permutation/sortedness of the merged output), xmath Abs (per integer width, exact wrap)/Min/Max/Clamp, xmaps ToIndex/FromKeysAndValues/Set/SetFromSlice/Difference/Union/Intersection/Intersects/Reverse/ReverseSingle, xrand rShuffle (permutation) and the samplers rSample/rSampleSlice/rSampleIterator/rSampleStream (no panic, documented result length, on a trusted contract of sampler.Next).",
+         "Trusted: gvc, SMT solvers, assumed contracts of package slices/sort. Assumed: orders are strict weak orders, callbacks pure, NaN not modelled. xsort.Slice carries a TRUSTED contract (a permutation of its argument, sorted) used by xmaps.Intersection/Intersects; xerrors.WithStack, xsort.MergeSlices and the sort wrappers Slice/SliceStable/SliceIsSorted are exercised only by bounded stand-ins (in-package tests, exhaustive over small inputs, injected with go test -overlay; labelled bounded, never counted as proved; the WithStack one found and now guards a repaired idempotence defect). Not under contract (listed in evidence): xsort.MergeSlices; uniformity of sampling is probabilistic and not decidable here. A failed obligation of a free function is replayed on the real code (generated test evaluating the contract on candidate inputs, seeded with the solver's model); where that finds an input the VIOLATION line carries it, otherwise it ends in no-failing-input-found.",
          "4.13", CLAIMED["C06"][3])
 CLAIMED["C20"] = ("Partial deductive proof: SleepContext's decision logic (nil at once iff d <= 0; DeadlineTooSoonError with the right fields iff a deadline closer than d, before any timer exists; otherwise nil only through the arm of a timer created with exactly d, ctx.Err() only through the Done arm); JitterTicker argument validation (panics iff d <= 0 or jitter >= d), no panic for 0 <= jitter < d, every scheduled delay within [d-jitter, d+jitter], Stop and Reset advance the generation that pending callbacks compare against.",
          "Trusted: gvc, assumed contracts of time.NewTimer/AfterFunc/Until, context, math/rand, sync.Mutex; wall-clock behaviour of timers. Not covered: the callback body's generation check is argued on paper from Stop's proved postcondition; Stop/Reset racing a firing timer; tick spacing as observed on the channel.",
